@@ -57,6 +57,67 @@ ARGS_DECLS = """    type(field_type) :: f1(3), f2
     integer(i_def) :: n"""
 
 
+FS_META = """
+     type(arg_type), dimension(3) :: meta_args =     &
+          (/ arg_type(gh_field, gh_real, gh_inc,  {fs1}), &
+             arg_type(gh_field, gh_real, gh_read, {fs2}), &
+             arg_type(gh_field*2, gh_real, gh_read, {fs3}) /)
+     type(func_type), dimension(2) :: meta_funcs =   &
+          (/ func_type({fs1}, gh_basis),                &
+             func_type({fs2}, gh_diff_basis) /)
+     integer :: gh_shape = {shape}
+"""
+FS_DECLS = """    type(field_type) :: f1, f2, f3(2)
+    type(quadrature_xyoz_type) :: qr_xyoz
+    type(quadrature_face_type) :: qr_face
+    type(quadrature_edge_type) :: qr_edge"""
+
+RE_META = """
+     type(arg_type), dimension(2) :: meta_args =    &
+          (/ arg_type(gh_scalar, gh_real, gh_read), &
+             arg_type(gh_field,  gh_real, gh_inc,  w1) /)
+     type(reference_element_data_type), dimension({n}) :: &
+          meta_reference_element =                      &
+          (/ {props} /)
+"""
+
+
+def more_cases():
+    """thorough tier: function-space mixes with one shape, reference-element
+    property sets without a mesh property, further stencil mixes"""
+    out = []
+    for fs1, fs2, fs3 in (("w1", "w2", "w3"), ("w0", "w1", "w2"),
+                          ("w2", "w3", "wtheta"), ("w2h", "w2v", "w0"),
+                          ("any_space_1", "w1", "any_space_2")):
+        for shape, arg in (("gh_quadrature_xyoz", ", qr_xyoz"),
+                           ("gh_quadrature_face", ", qr_face"),
+                           ("gh_quadrature_edge", ", qr_edge"),
+                           ("gh_evaluator", "")):
+            out.append((f"spaces[{fs1},{fs2},{fs3};{shape}]", "fs_kern",
+                        FS_META.format(fs1=fs1, fs2=fs2, fs3=fs3,
+                                       shape=shape), FS_DECLS,
+                        "f1, f2, f3" + arg))
+    props = ["normals_to_horizontal_faces", "normals_to_vertical_faces",
+             "normals_to_faces", "outward_normals_to_horizontal_faces",
+             "outward_normals_to_vertical_faces", "outward_normals_to_faces"]
+    import itertools
+    for pair in itertools.permutations(props, 2):
+        meta = RE_META.format(n=2, props=", ".join(
+            f"reference_element_data_type({p})" for p in pair))
+        out.append(("reference_element[" + ",".join(pair) + "]", "re_kern",
+                    meta, MESH_DECLS, "a, f1"))
+    stencil_args = {"cross": "{f}, {e}", "region": "{f}, {e}",
+                    "x1d": "{f}, {e}", "y1d": "{f}, {e}",
+                    "xory1d": "{f}, {e}, {d}", "cross2d": "{f}, {e}"}
+    for s1, s2 in itertools.product(stencil_args, repeat=2):
+        a1 = stencil_args[s1].format(f="f2", e="e1", d="d1")
+        a2 = stencil_args[s2].format(f="f3", e="e2", d="d2")
+        out.append((f"stencil[{s1},{s2}]", "st_kern",
+                    STENCIL_META.format(s1=s1, s2=s2), STENCIL_DECLS,
+                    f"f1, {a1}, {a2}"))
+    return out
+
+
 def cases():
     """[(id, kernel name, metadata, declarations, invoke arguments)]"""
     out = []
@@ -126,9 +187,13 @@ def check_case(name, meta, decls, args):
             shutil.rmtree(d, ignore_errors=True)
 
 
-def family():
+def family(thorough=False):
     out = []
-    for cid, name, meta, decls, args in cases():
+    todo = cases()
+    if thorough:
+        have = {c[0] for c in todo}
+        todo += [c for c in more_cases() if c[0] not in have]
+    for cid, name, meta, decls, args in todo:
         verdict, probs = check_case(name, meta, decls, args)
         out.append((cid, verdict, probs, meta))
     return out
